@@ -17,7 +17,8 @@ META = {
     "title": "RISC-V backend output computes the source results and keeps callee state",
     "category": "proof",
     "design_ref": "DESIGN.md §5 C22",
-    "lean_modules": ["XdslProofs.C22", "XdslProofs.C22Frame", "XdslProofs.C22Kernels", "XdslProofs.C22Validate"],
+    "lean_modules": ["XdslProofs.C22", "XdslProofs.C22Frame", "XdslProofs.C22FrameWalk", "XdslProofs.C22Float", "XdslProofs.C22Kernels",
+                     "XdslProofs.C22Validate"],
     "extra_targets": ["XdslGen", "driver_gen"],
     "text": (
         "Lean (BitVec 32, x0 hard-wired, Mathlib-free): an RV32IM(+rv32-dialect bit immediates) machine with a straight-line "
@@ -63,7 +64,26 @@ META = {
         "lb == ub constant loops, and nested loops whose inner result is yielded by the outer loop. A failure of the allocated "
         "stage is attributed to the listed allocator finding only if the *source* loop has the listed shape and an independent "
         "interference analysis (value-token tracking over registers, loop bodies re-run to a fixpoint) finds a live value "
-        "overwritten in a loop-carried register."
+        "overwritten in a loop-carried register. "
+        "PASS ORDER AND FRAME COLLECTION (C22FrameWalk, XdslModel/RiscVFrameFloat.lean): the statement lists the passes, not one order, so "
+        "leg B also runs riscv-prologue-epilogue-insertion while riscv_scf loops are still structured (P: after canonicalize, then "
+        "lower-riscv-scf-to-labels; Q: right after allocation, then convert-riscv-scf-to-riscv-cf) and canonicalize before allocation (E); "
+        "the IR with the inserted frame is executed (lw/sw/fld/fsd) and callee-saved registers incl. fs0-fs11 are compared there and on the "
+        "emitted code, with loop-body temporaries pinned to s-/fs-registers. usedCalleeSaved_spec: the pass's register collection over "
+        "func.walk() saves a register iff it is callee-saved and the result of a non-get_register op at ANY nesting depth; "
+        "usedCalleeSaved_nodup, layout_disjoint/layout_within_frame (4-byte s-slots, 8-byte fs-slots); topLevelOnly_counterexample; "
+        "frame_restores_every_callee_saved: for a straight-line body and the list the pass computes, sp and ALL of s0-s11 are restored "
+        "(saved ones through the frame, the others because no instruction writes them: exec_preserves). The Lean collection + layout is "
+        "compared with what the real pass inserted for every function at every place the pass runs. "
+        "FLOAT (C22Float): the Python machine has the F/D subset the arith lowering and canonicalization emit (correctly rounded + - * / "
+        "min max on exact rationals, fused multiply-add with ONE rounding, sign injection, NaN boxing, fld/fsd/flw/fsw); leg A covers the 7 "
+        "float patterns (FuseMultiplyAddD: all 81 pairs of {none, fast, 7 single flags} on product and sum + mixed sets, one/two uses, "
+        "work in between, allocated/unallocated; inputs where the product's rounding error survives the sum); a before/after difference is "
+        "accepted only if it is a contraction licensed by `contract` on BOTH operations (read from the snippet, not from xDSL). Leg B lowers "
+        "f64/f32 arith programs with per-op fast-math flags and compares every stage with the set of results the source's flags admit "
+        "(own exact evaluator, strict reading cross-checked with the Lean reference semantics). fuseMultiplyAddD_licensed / _sound: for every "
+        "float arithmetic the rule fires only with contract on sum and product, single use, stable multiplicands, and then writes a "
+        "licensed value; fuse_reassoc_counterexample, fuse_stale_counterexample (the repaired post-allocation defect); Lean rule = real pattern per op."
     ),
     "technique": "Lean 4 proofs of rewrite rules over an RV32 BitVec machine + theorems over fold kernels translated from the Python source + a proved symbolic-execution translation validator run on every emitted loop-free function + differential snippets + stage-wise execution on an independent machine model",
     "level_note": (
@@ -74,9 +94,14 @@ META = {
         "scf.for or calls: executed on generated programs × inputs only). The validator is incomplete by design (ring identities mod 2^32 + "
         "the listed bitwise/division identities): a rejection is not a finding, it triggers a failing-input search and is otherwise "
         "recorded as unproved in the evidence (0 on the unchanged tree). i1 results cannot leave a riscv function in the pinned pipeline "
-        "(riscv-lower-parallel-mov: unsupported width), so cmpi reaches the validator only through the Lean examples. Outside the machine "
-        "model (stated): float patterns (RemoveRedundantFMv/FMvD, Load/Store{FloatWord,Double}WithKnownOffset — their "
-        "integer address arithmetic is the same code as the lw/sw rules —, FuseMultiplyAddD), snitch ScfgwOpUsingImmediate, "
+        "(riscv-lower-parallel-mov: unsupported width), so cmpi reaches the validator only through the Lean examples. Float: executed on "
+        "the Python machine only (the Lean machine is integer; the FuseMultiplyAddD rule and its licence are proved over an abstract "
+        "arithmetic, IEEE rounding itself is not modelled in Lean); two NaNs are the same result; fast-math flags other than `contract` "
+        "licence nothing here (no pattern uses them) and `contract` licences exactly product-into-sum/difference fusion; float programs are "
+        "straight-line addf/subf/mulf/divf (arith.negf on f64 lowers to the single-precision fsgnjn.s - no double-precision op exists in "
+        "the dialect -, minimumf/maximumf lower to fmin/fmax with different NaN behaviour, cmpf/conversions: outside the generated family). "
+        "Frame: restoring every callee-saved register is proved for straight-line bodies; bodies with loops and the placement of the "
+        "pass in the pipeline are validated by execution. Outside the machine model (stated): snitch ScfgwOpUsingImmediate, "
         "RV64 execution (only py_operation kernels of rv64 are checked). Pipeline exceptions count as 'does not "
         "compile' (outside the statement, counted in the evidence). Inputs on which MLIR gives UB/poison (shift ≥ 32, "
         "division by zero, INT_MIN/-1) are excluded by the Lean reference semantics. Python `&|^` of the bitwise folds are "
@@ -98,10 +123,16 @@ META = {
         "bounds, each also through the cf path. Distinct = distinct (snippet | program, input). Validator: every generated program without "
         "scf.for / call whose assembler is label + straight-line body + ret (non-trivial = certified function, distinct by source and body); "
         "translated kernels: 16 shift kernels x 8 shift amounts x 21 constants, 6 const_evaluate x 40 pairs x {32, 64}, _fits_si12 and "
-        "_folded_li_immediate on 27 boundary/random values x 4 source type lists."
+        "_folded_li_immediate on 27 boundary/random values x 4 source type lists. Float: leg A 81+ directed flag pairs + >= 56 random "
+        "FuseMultiplyAddD snippets (10 shapes) + 14 per other float pattern, 8 vectors (30% special values, 60% full-mantissa, the addend "
+        "cancelling a product with probability 1/2); leg B 37 fixed + 40 random float programs x 6 inputs, half of the random ones with values "
+        "pinned to fs-registers; 26 fixed loop programs repeated with loop-body temporaries pinned to s-registers (p = 0.7); every loop "
+        "program also through P (and Q for pinned ones / half of the rest), every float program and 15% of the others through E."
     ),
     "trusted_base": [
-        "independent Python RV32 machine harness/props/c22_rv.py (cross-checked against the Lean machine every run)",
+        "independent Python RV32 machine harness/props/c22_rv.py (integer part cross-checked against the Lean machine every run; the F/D part - "
+        "IEEE arithmetic on exact rationals - against the Lean reference semantics' native floats through the strict reading of every float program)",
+        "hand-written Lean model XdslModel/RiscVFrameFloat.lean (register collection + frame layout tied to the real pass per function, FuseMultiplyAddD tied to the real pattern per op)",
         "hand-written Lean models XdslModel/RiscV.lean, RiscVRules.lean (rules tied to the real patterns by per-op correspondence)",
         "Lean reference semantics XdslModel/Sem.lean for the source programs (C15)",
         "assembler-text parser for the emitted subset; an instruction it cannot read counts as not assembling",
@@ -158,7 +189,30 @@ def facts_and_target(func: Any, target: str, nm: sn.Namer) -> tuple[Any, list[st
     return op, facts
 
 
-def apply_to_op(pattern: Any, op: Any, nm: sn.Namer) -> str:
+def fuse_line(op: Any, nm: sn.Namer) -> str:
+    """protocol line of the Lean FuseMultiplyAddD rule for this fadd.d: its fast-math flags and registers, and
+    for each operand what the pattern can read from its definition (fmul.d: multiplicands, flags, number of uses)"""
+    from xdsl.dialects import riscv
+
+    def mask(o: Any) -> int:
+        fm = getattr(o, "fastmath", None)
+        names = {f.value for f in fm.data} if fm is not None else set()
+        return sum(1 << k for k, n in enumerate(sn.FLAG_NAMES) if n in names)
+
+    def fr(v: Any) -> int:
+        return rv.fregnum(nm.reg(v))
+
+    parts = [f"fuse {mask(op)} {fr(op.rd)} {fr(op.rs1)} {fr(op.rs2)}"]
+    for v in (op.rs1, op.rs2):
+        o = v.owner
+        if isinstance(o, riscv.FMulDOp):
+            parts.append(f"mul {fr(o.rs1)} {fr(o.rs2)} {mask(o)} {sum(1 for _ in v.uses)}")
+        else:
+            parts.append("-")
+    return " | ".join(parts)
+
+
+def apply_to_op(pattern: Any, op: Any, nm: sn.Namer, fl: bool = False) -> str:
     """run the real pattern on exactly this op; protocol text of what replaced it"""
     from xdsl.dialects import riscv
     from xdsl.pattern_rewriter import PatternRewriter
@@ -182,7 +236,7 @@ def apply_to_op(pattern: Any, op: Any, nm: sn.Namer) -> str:
     out = []
     for o in new:
         if isinstance(o, riscv.RISCVInstruction):
-            out.append(rv.lean_instr(pp.ins_of(o, nm)))
+            out.append(rv.flean_instr(pp.ins_of(o, nm)) if fl else rv.lean_instr(pp.ins_of(o, nm)))
     return "some " + ";".join(out)
 
 
@@ -192,9 +246,10 @@ def snippet_case(pattern: str, mode: str, s: dict[str, Any]) -> dict[str, Any]:
 
 def eval_snippet(ctx: core.Ctx, pats: dict[str, Any], pattern: str, mode: str, s: dict[str, Any],
                  vectors: int, lean_lines: list[str], lean_expect: list[tuple[str, Any, str]],
-                 report: bool = True) -> str | None:
+                 report: bool = True, aux: dict[str, list[Any]] | None = None) -> str | None:
     """returns the failure signature (None = property holds on this snippet)"""
     rng = ctx.rng
+    isf = sn.is_float_snippet(s)
     try:
         m = sn.parse(sn.snip_text(s))
     except Exception as e:  # noqa: BLE001
@@ -209,6 +264,7 @@ def eval_snippet(ctx: core.Ctx, pats: dict[str, Any], pattern: str, mode: str, s
             return None
     nm = sn.Namer()
     p0, argr, rets0 = sn.extract(f, nm)
+    fset = frozenset(sn.float_regs(f, nm)) if isf else frozenset()
     if any(rv.encodable(i, True) for i in p0):
         ctx.count("legA.generator_rejected.unencodable_input")
         return None
@@ -222,7 +278,27 @@ def eval_snippet(ctx: core.Ctx, pats: dict[str, Any], pattern: str, mode: str, s
         return sig
 
     # rule correspondence (single mode with a designated target op): Lean rule vs the real pattern on that op
-    if mode == "single" and "target" in s:
+    if mode == "single" and "target" in s and pattern == "FuseMultiplyAddD" and aux is not None:
+        # Lean rule (XdslModel/RiscVFrameFloat.lean, fuseMultiplyAddD) vs the real pattern on the designated fadd.d
+        from xdsl.dialects import riscv as _riscv
+
+        def target_op(fn: Any) -> Any:
+            return next((o for o in fn.body.blocks.first.ops
+                         if isinstance(o, _riscv.FAddDOp) and o.rd.name_hint == s["target"]), None)
+        op = target_op(f)
+        if op is not None:
+            line = fuse_line(op, nm)
+            m2 = sn.parse(sn.snip_text(s))
+            if s.get("alloc"):
+                sn.allocate(m2)
+            nm2 = sn.Namer()
+            f2 = sn.the_func(m2)
+            sn.extract(f2, nm2)
+            op2 = target_op(f2)
+            if op2 is not None:
+                aux["frame_lines"].append(line)
+                aux["frame_expect"].append(("fuse", case, apply_to_op(pats[pattern], op2, nm2, fl=True)))
+    elif mode == "single" and "target" in s and pattern in sn.INT_PATTERNS:
         ft = facts_and_target(f, s["target"], nm)
         if ft is not None:
             op, facts = ft
@@ -251,6 +327,8 @@ def eval_snippet(ctx: core.Ctx, pats: dict[str, Any], pattern: str, mode: str, s
         return fail(SIG_RAISE, f"{'pattern ' + pattern if mode == 'single' else 'canonicalize'} raised {core.exc_name(e)} on a verified snippet",
                     "raise " + core.exc_name(e) + ": " + str(e).split("\n")[0][:200], "no exception")
     p1, _, rets1 = sn.extract(sn.the_func(m), nm)
+    if isf:
+        fset = fset | frozenset(sn.float_regs(sn.the_func(m), nm))
     ctx.count(f"legA.{pattern}.{mode}." + ("rewritten" if p0 != p1 else "unchanged"))
     if p0 != p1:
         ctx.nt(("A", pattern, mode, json.dumps(s, sort_keys=True)))
@@ -264,13 +342,20 @@ def eval_snippet(ctx: core.Ctx, pats: dict[str, Any], pattern: str, mode: str, s
             return fail(SIG_UNALLOC, "all registers were allocated before the rewrite; afterwards an instruction uses a register that has no name",
                         v, "only allocated registers")
     seed = 7 if s.get("mem") else 0
-    for regs in sn.input_vectors(rng, argr, bool(s.get("mem")), vectors):
-        o0 = sn.run_prog(p0, regs, rets0, seed)
-        o1 = sn.run_prog(p1, regs, rets1, seed)
+    choices = sn.contraction_choices(sn.licensed_contractions(s)) if isf else []
+    for regs in (sn.input_vectors_f(rng, s, argr, vectors) if isf else sn.input_vectors(rng, argr, bool(s.get("mem")), vectors)):
+        o0 = sn.run_prog(p0, regs, rets0, seed, fset)
+        o1 = sn.run_prog(p1, regs, rets1, seed, fset)
         if o0[0] == "trap":
             ctx.count("legA.input_traps_before")
             continue
+        if o0 != o1 and choices and any(sn.run_prog(p0, regs, rets0, seed, fset, fuse=c) == o1 for c in choices):
+            # the only difference is a contraction that the `contract` flags of BOTH operations licence
+            ctx.count("legA.licensed_contraction_changed_rounding")
+            continue
         for prog, rets, obs in ((p0, rets0, o0), (p1, rets1, o1)):
+            if isf:
+                break
             if len(lean_lines) < 150000 and obs[0] == "ok":
                 addrs = [a for a, _ in obs[2]]
                 lean_lines.append(f"exec {seed} | {rv.lean_regs(regs)} | {rv.lean_prog(prog)} | "
@@ -281,7 +366,8 @@ def eval_snippet(ctx: core.Ctx, pats: dict[str, Any], pattern: str, mode: str, s
             case2 = dict(case, inputs=regs)
             if report:
                 ctx.fail(site, SIG_DIFF, case2,
-                         "executing the function on the RV32 machine gives different results before and after the rewrite",
+                         "executing the function on the RV32 machine gives different results before and after the rewrite"
+                         + (" (F/D registers as bit patterns; the fast-math flags of the rewritten operations do not licence the change)" if isf else ""),
                          {"before": [rv.fmt(i) for i in p0], "after": [rv.fmt(i) for i in p1], "got": o1}, {"want": o0})
             return SIG_DIFF
     return None
@@ -388,7 +474,7 @@ def run_cf_snippets(ctx: core.Ctx) -> None:
 
 def attribute(ctx: core.Ctx, pats: dict[str, Any], s: dict[str, Any], sig: str, vectors: int) -> str | None:
     """which single pattern reproduces a canonicalize-level failure"""
-    for p in sn.INT_PATTERNS:
+    for p in sn.INT_PATTERNS + sn.FLOAT_PATTERNS:
         sub = core.Ctx.__new__(core.Ctx)
         sub.__dict__.update(ctx.__dict__)
         sub.rng = random.Random(1)
@@ -417,7 +503,8 @@ def shrink_snippet(ctx: core.Ctx, pats: dict[str, Any], pattern: str, mode: str,
 
 def run_snippets(ctx: core.Ctx) -> None:
     pats = sn.pattern_instances()
-    g = sn.Gen(ctx.rng)
+    g = sn.FGen(ctx.rng)
+    aux: dict[str, list[Any]] = {"frame_lines": [], "frame_expect": []}
     per = 14 if ctx.tier == "quick" else 500
     nmixed = 80 if ctx.tier == "quick" else 5000
     vectors = 8 if ctx.tier == "quick" else 14
@@ -425,6 +512,10 @@ def run_snippets(ctx: core.Ctx) -> None:
     for p in sn.INT_PATTERNS:
         for _ in range(per):
             cases.append((p, sn.gen_for(p, g)))
+    cases += sn.float_directed()
+    for p in sn.FLOAT_PATTERNS:
+        for _ in range(per * (4 if p == "FuseMultiplyAddD" else 1)):
+            cases.append((p, sn.gen_float(p, g)))
     for _ in range(nmixed):
         cases.append(("mixed", sn.gen_mixed(g)))
     lean_lines: list[str] = []
@@ -435,7 +526,7 @@ def run_snippets(ctx: core.Ctx) -> None:
             continue
         ctx.count("legA.cases")
         for mode in (["single"] if pattern != "mixed" else []) + ["canon"]:
-            sig = eval_snippet(ctx, pats, pattern, mode, s, vectors, lean_lines, lean_expect, report=False)
+            sig = eval_snippet(ctx, pats, pattern, mode, s, vectors, lean_lines, lean_expect, report=False, aux=aux)
             if sig is None:
                 continue
             pat, md, sm = pattern, mode, s
@@ -460,6 +551,16 @@ def run_snippets(ctx: core.Ctx) -> None:
         if got != want:
             ctx.mismatch(f"correspondence:C22/riscv-{kind}", case, want, got,
                          "real pattern output vs Lean rule" if kind == "rule" else "Python RV32 machine vs Lean RV32 machine")
+    outs = ctx.model("riscv_frame", aux["frame_lines"]) if aux["frame_lines"] else []
+    for (kind, case, want), got in zip(aux["frame_expect"], outs):
+        ctx.count(f"lean.{kind}")
+        if got == "bad-op":
+            ctx.count(f"lean.{kind}.unsupported")
+            continue
+        if want.startswith("raise"):
+            continue
+        if got != want:
+            ctx.mismatch(f"correspondence:C22/riscv-{kind}", case, want, got, "real FuseMultiplyAddD output vs Lean fuseMultiplyAddD")
 
 
 # ================================================================================================
@@ -467,44 +568,28 @@ def run_snippets(ctx: core.Ctx) -> None:
 # ================================================================================================
 
 def compile_and_run(p: dict[str, Any], vecs: list[list[int]], regsets: list[dict[str, int]], pin_seed: int | None,
-                    ctx: core.Ctx | None) -> dict[str, Any]:
-    """all stages; observations per stage per input"""
-    out: dict[str, Any] = {"stages": [], "nocompile": None, "nocompile_cf": None, "unsafe_loops": False, "interference": [],
-                           "asm": None, "prog": None}
+                    ctx: core.Ctx | None, paths: tuple[str, ...] = ("C", "P", "Q")) -> dict[str, Any]:
+    """all stages of the main path and of the side paths `paths` (pass-order family, see c22_pipe);
+    observations per stage per input"""
+    out: dict[str, Any] = {"stages": [], "nocompile": None, "nocompile_cf": None, "nocompile_side": {}, "unsafe_loops": False,
+                           "interference": [], "asm": None, "prog": None, "frames": []}
     m = proggen.parse_module(p["text"])
     out["unsafe_loops"] = pp.unsafe_source_loops(m)  # on the source, before any pass under test
-    nret = len(p["ret_types"])
-    m_cf = None
-    stage_list = list(pp.STAGES)
-    k = 0
-    while k < len(stage_list):
-        sname, passes = stage_list[k]
-        k += 1
-        if sname == "C3-cf":
-            if m_cf is None:
-                break
-            m = m_cf
-        if sname == "S2-allocated":
-            if pin_seed is not None:
-                out["pinned"] = pp.pin_s_registers(m, random.Random(pin_seed), 0.4)
-        err = pp.apply_passes(m, passes)
+    rets = pp.abi_regs(p["ret_types"])
+    has_loop = "scf.for" in p["text"]
+    snaps: dict[str, Any] = {}
+
+    def run_stage(m: Any, sname: str, passes: list[str]) -> tuple[str, str, str] | None:
+        if sname == "S2-allocated" and pin_seed is not None:
+            out["pinned"] = pp.pin_s_registers(m, random.Random(pin_seed), p.get("pin_p", 0.4))
+        err = pp.apply_passes(m, passes, frame_obs=lambda fr: out["frames"].extend((sname,) + x for x in fr))
         if err:
-            if sname.startswith("C"):
-                out["nocompile_cf"] = (sname,) + err
-                break
-            out["nocompile"] = (sname,) + err
-            if m_cf is None:
-                break
-            k = len(pp.STAGES)  # the labels path stops here; the cf path still runs from S2
-            continue
+            return err
         if sname == "S2-allocated":
             try:
                 out["interference"] = pp.interference(m)
             except Exception as e:  # noqa: BLE001
                 out["interference"] = [{"analysis": "failed: " + core.exc_name(e)}]
-            if "scf.for" in p["text"]:
-                m_cf = m.clone()
-                stage_list = list(pp.STAGES) + list(pp.CF_STAGES)
         if sname in pp.ASM_STAGES:
             asm = pp.asm_text(m)
             prog = rv.parse_asm(asm)
@@ -515,31 +600,55 @@ def compile_and_run(p: dict[str, Any], vecs: list[list[int]], regsets: list[dict
             if bad:
                 out["stages"].append((sname, [("unencodable", bad)] * len(vecs), asm))
             else:
-                out["stages"].append((sname, [pp.run_asm(prog, r, nret) for r in regsets], asm))
+                out["stages"].append((sname, [pp.run_asm(prog, r, rets) for r in regsets], asm))
         else:
             try:
-                out["stages"].append((sname, [pp.run_ir(m, r, nret) for r in regsets], str(m)))
+                out["stages"].append((sname, [pp.run_ir(m, r, rets) for r in regsets], str(m)))
             except pp.IRUnsupported as e:
                 if ctx is not None:
                     ctx.count("legB.ir_executor_unsupported." + str(e)[:40])
+        return None
+
+    for sname, passes in pp.STAGES:
+        err = run_stage(m, sname, passes)
+        if err:
+            out["nocompile"] = (sname,) + err
+            break
+        if (sname == "S1-lowered" and "E" in paths) or (sname in ("S2-allocated", "S4-canon") and has_loop):
+            snaps[sname] = m.clone()
+    for name in paths:
+        start, stages = pp.SIDE_PATHS[name]
+        if start not in snaps or (name != "E" and not has_loop):
+            continue
+        m2 = snaps[start].clone()
+        for sname, passes in stages:
+            err = run_stage(m2, sname, passes)
+            if err:
+                out["nocompile_side"][name] = (sname,) + err
+                break
+    out["nocompile_cf"] = out["nocompile_side"].get("C")
     return out
 
 
-def judge(p: dict[str, Any], regs: dict[str, int], want: list[int], stage_obs: list[tuple[str, Any, str]]) -> tuple[str, str, str, Any] | None:
-    """(stage, signature, description, observation) of the first stage that breaks the property"""
+def judge(p: dict[str, Any], regs: dict[str, int], want: Any, stage_obs: list[tuple[str, Any, str]]) -> tuple[str, str, str, Any] | None:
+    """(stage, signature, description, observation) of the first stage that breaks the property.  `want`: the
+    source results, or (float programs) {"admissible": [results…]} - every result the fast-math flags admit"""
+    wants = want["admissible"] if isinstance(want, dict) else [want]
     for sname, ob, txt in stage_obs:
         if ob[0] == "unencodable":
             return (sname, SIG_ENC, "the emitted assembler contains an instruction that does not assemble", ob[1])
         if ob[0] != "ok":
             return (sname, "execution traps", f"executing the stage output traps: {ob[1]}", ob[1])
-        if sname in ("S2-allocated", "S3-pmov", "S4-canon", "C3-cf", "C4-cfcanon") and len(ob) > 3 and ob[3]:
+        if sname in ("S2-allocated", "S3-pmov", "S4-canon", "C3-cf", "C4-cfcanon", "P5-frame", "Q3-frame") and len(ob) > 3 and ob[3]:
             return (sname, SIG_UNALLOC, "registers were allocated, yet the stage output uses values without a register", ob[3])
-        got = [(x & 1) if t == "i1" else x for x, t in zip(ob[1], p["ret_types"])]
-        if got != want:
+        got = pp.canon_rets(ob[1], p["ret_types"])
+        if got not in wants:
             return (sname, "result differs from the source semantics",
-                    f"a0.. after executing the {sname} output differ from the source results", {"got": got, "want": want})
-        if sname in pp.FINALS:
-            cs = {r: (regs[r], ob[2][r]) for r in rv.CALLEE_SAVED if ob[2][r] != regs[r]}
+                    f"{', '.join(pp.abi_regs(p['ret_types']))} after executing the {sname} output differ from the source results"
+                    + (" (no contraction that the fast-math flags of the source licence explains them)" if isinstance(want, dict) else ""),
+                    {"got": got, "want": wants[0] if len(wants) == 1 else {"any of": wants}})
+        if sname in pp.FINALS or sname in pp.FRAME_IR:
+            cs = {r: (regs[r], ob[2][r]) for r in pp.ALL_CALLEE_SAVED if ob[2][r] != regs[r]}
             if cs:
                 return (sname, "callee-saved register or sp not restored",
                         "callee-saved registers / sp differ between entry and return", cs)
@@ -553,8 +662,16 @@ def run_pipeline(ctx: core.Ctx) -> None:
     progs = [pp.cmpi_program(pr, sw) for pr in proggen.CMPI for sw in (False, True)]
     progs += pp.directed_programs()
     ndirected = len(progs)
+    # the same loop programs with loop-body temporaries in callee-saved registers (prologue/epilogue must see them
+    # wherever it runs in the pipeline), and the float programs (fast-math flags decide what may be contracted)
+    progs += [dict(q, pin=True, pin_p=0.7) for q in pp.directed_programs() if "scf.for" in q["text"]]
+    progs += pp.float_directed()
+    ndirected = len(progs)
     progs += [pp.nested_program(rng) for _ in range(8 if ctx.tier == "quick" else 1500)]
     progs += [g.program() for _ in range(nprog)]
+    progs += [pp.float_program(rng) for _ in range(40 if ctx.tier == "quick" else 4000)]
+    frame_lines: list[str] = []
+    frame_expect: list[tuple[str, Any, str]] = []
     sem_lines: list[str] = []
     expect: list[Any] = []
     lean_lines: list[str] = []
@@ -573,12 +690,35 @@ def run_pipeline(ctx: core.Ctx) -> None:
             continue
         src = tv.src_of(m)  # the validator's view of the source (None: loops, calls, other types)
         ctx.programs += 1
-        vecs = g.inputs(p["arg_types"], 5)
-        if idx < ndirected and len(p["arg_types"]) == 2:
-            vecs += pp.BOUNDARY_PAIRS
-        regsets = [pp.entry_regs(rng, v) for v in vecs]
-        pin_seed = rng.randrange(1 << 30) if (idx >= ndirected and rng.random() < 0.4) else None
-        res = compile_and_run(p, vecs, regsets, pin_seed, ctx)
+        isfloat = "fspec" in p
+        if isfloat:
+            vecs = pp.float_inputs(rng, p, 6)
+        else:
+            vecs = g.inputs(p["arg_types"], 5)
+            if idx < ndirected and len(p["arg_types"]) == 2 and not p.get("pin"):
+                vecs += pp.BOUNDARY_PAIRS
+        regsets = [pp.entry_regs(rng, v, p["arg_types"]) for v in vecs]
+        if isfloat and idx >= ndirected and rng.random() < 0.5:
+            p = dict(p, pin=True, pin_p=0.7)
+        pin_seed = rng.randrange(1 << 30) if (p.get("pin") or (idx >= ndirected and rng.random() < 0.4)) else None
+        # side paths: C and P for every loop program; Q (prologue before the cf conversion) when values sit in
+        # callee-saved registers and for half of the others; E for float programs and a sample of the integer ones
+        paths = ("C", "P") + (("Q",) if (pin_seed is not None or rng.random() < 0.5) else ()) \
+            + (("E",) if (isfloat or rng.random() < 0.15) else ())
+        res = compile_and_run(p, vecs, regsets, pin_seed, ctx, paths)
+        for pth, nc in res["nocompile_side"].items():
+            if pth != "C":
+                ctx.count(f"legB.path_{pth}.does_not_compile." + ".".join(nc[:3]))
+        for sn_, _, _ in res["stages"]:
+            if sn_ in ("E1-earlycanon", "P6-asm", "Q4-cfasm"):
+                ctx.count(f"legB.path_{sn_[0]}.compiled")
+        if isfloat and any(sn_ == pp.FINAL for sn_, _, _ in res["stages"]):
+            ctx.count("legB.float.compiled" + ("_with_fs_registers" if res.get("pinned") else ""))
+        # what PrologueEpilogueInsertion saved vs the Lean model of its register collection and frame layout
+        for sname_, fname_, tree_, real_ in res["frames"]:
+            if len(frame_lines) < 3000:
+                frame_lines.append("clobber " + tree_)
+                frame_expect.append(("clobber", {"leg": "B", "program": p["text"], "stage": sname_, "function": fname_, "pin_seed": pin_seed}, real_))
         if res["nocompile"]:
             ctx.count("legB.does_not_compile." + ".".join(res["nocompile"][:3]))
         elif any(sn_ == pp.FINAL for sn_, _, _ in res["stages"]):
@@ -607,7 +747,7 @@ def run_pipeline(ctx: core.Ctx) -> None:
         sem_lines.append("prog " + sexp)
         expect.append(None)
         for i, vec in enumerate(vecs):
-            sem_lines.append("run 200000 main " + " ".join(miniir.arg_text(t, v) for t, v in zip(p["arg_types"], vec)))
+            sem_lines.append("run 200000 main " + " ".join(sem_arg(t, v) for t, v in zip(p["arg_types"], vec)))
             expect.append((p, vec, regsets[i], [(s, o[i], txt) for s, o, txt in res["stages"]], pin_seed,
                            (res["unsafe_loops"], res["interference"]), item))
             if item is not None:
@@ -665,6 +805,17 @@ def run_pipeline(ctx: core.Ctx) -> None:
             ctx.count("legB.source_outcome." + o.split(" ")[0])
             continue
         ctx.count("legB.source_outcome.ok")
+        if "fspec" in p:
+            # the oracle's evaluator (exact rationals, one rounding per operation) agrees with the Lean reference
+            # semantics on the strict reading; the admissible set adds the licensed contractions
+            adm = pp.float_admissible(p, vec)
+            if adm[0] != want:
+                ctx.mismatch("correspondence:C22/float-source", {"leg": "B", "program": p["text"], "args": vec}, adm[0], want,
+                             "strict evaluation of the float source: Python IEEE evaluator vs Lean reference semantics (sem)")
+                continue
+            if len(adm) > 1:
+                ctx.count("legB.float.inputs_where_contraction_changes_the_result")
+            want = {"admissible": adm}
         bad = judge(p, regs, want, stage_obs)
         if item is not None and bad is not None:
             item["bad"].append((bad[0], bad[1], vec))
@@ -684,13 +835,25 @@ def run_pipeline(ctx: core.Ctx) -> None:
         elif sname == "S2-allocated" and interf:
             desc += "; interference analysis of the allocated module: " + json.dumps(interf[:4])
         case = {"leg": "B", "program": p["text"], "arg_types": p["arg_types"], "ret_types": p["ret_types"], "args": vec,
-                "entry_regs": regs, "pin_seed": pin_seed}
-        if reported < 6 and site != LOOP_SITE:
+                "entry_regs": regs, "pin_seed": pin_seed, "pin_p": p.get("pin_p", 0.4)}
+        if "fspec" in p:
+            case["fspec"] = p["fspec"]
+        elif reported < 6 and site != LOOP_SITE:
             reported += 1
             case = shrink_program(ctx, case, sname, sig)
         ctx.fail(site, sig, case, desc, {"stage": sname, "observation": obs,
                                          "stage_output": next(t for s, _, t in stage_obs if s == sname)[:3000]}, {"source_results": want})
     run_validator(ctx, tv_lines, tv_items)
+    outs = ctx.model("riscv_frame", frame_lines) if frame_lines else []
+    for (kind, case, want), got in zip(frame_expect, outs):
+        ctx.count(f"lean.{kind}")
+        if got == "bad-op":
+            ctx.count(f"lean.{kind}.unsupported")
+            continue
+        if got != want:
+            ctx.mismatch(f"correspondence:C22/riscv-{kind}", case, want, got,
+                         "registers saved / frame layout of the real PrologueEpilogueInsertion vs Lean usedCalleeSaved + layout "
+                         "of the function as func.walk() sees it")
     outs = ctx.model("riscv", lean_lines) if lean_lines else []
     for (kind, case, want), got in zip(lean_expect, outs):
         ctx.count(f"lean.{kind}")
@@ -706,6 +869,11 @@ def run_pipeline(ctx: core.Ctx) -> None:
                          else "real LowerArithCmpi output vs Lean lowerCmpi")
     if progs:
         ctx.sample({"leg": "B", "program": progs[-1]["text"]})
+
+
+def sem_arg(t: str, v: int) -> str:
+    """argument text for the Lean reference semantics; floats are handed over as bit patterns"""
+    return f"{t}:{v}" if t in ("f32", "f64") else miniir.arg_text(t, v)
 
 
 TV_SITE = "xdsl.backend.riscv.lowering[straight-line function]"
@@ -816,6 +984,8 @@ def frame_of(prog: list[tuple[str, list[Any]]], fname: str) -> tuple[list[str], 
     while n < len(body) and body[n][0] == "sw" and body[n][1][1] == "sp" and body[n][1][0] in rv.CALLEE_SAVED:
         saved.append(body[n][1][0])
         n += 1
+    if n < len(body) and body[n][0] == "fsd" and body[n][1][1] == "sp":
+        return None  # a frame with fs-registers: compared through the `clobber` line (layout with 8-byte slots)
     rets = [i for i, (m, _) in enumerate(body) if m == "ret"]
     if not rets:
         return None
@@ -864,11 +1034,11 @@ def shrink_program(ctx: core.Ctx, case: dict[str, Any], stage: str, sig: str) ->
     body = lines[h + 1:r]
 
     def verdict(t: str) -> bool:
-        p = {"text": t, "arg_types": case["arg_types"], "ret_types": case["ret_types"]}
+        p = {"text": t, "arg_types": case["arg_types"], "ret_types": case["ret_types"], "pin_p": case.get("pin_p", 0.4)}
         try:
             m = proggen.parse_module(t)
             sexp = miniir.serialize(m)
-            res = compile_and_run(p, [case["args"]], [case["entry_regs"]], case["pin_seed"], None)
+            res = compile_and_run(p, [case["args"]], [case["entry_regs"]], case["pin_seed"], None, ("C", "P", "Q", "E"))
         except Exception:  # noqa: BLE001
             return False
         o = ctx.model("sem", ["prog " + sexp, "run 200000 main " + " ".join(miniir.arg_text(tt, v) for tt, v in zip(case["arg_types"], case["args"]))])[1]
@@ -1027,11 +1197,13 @@ def run(ctx: core.Ctx) -> None:
     ctx.lean()
     ctx.extra["lean_build_audit_s"] = round(time.time() - t0, 1)
     ctx.exhaustive = False
-    run_shift_kernels(ctx)
+    secs: dict[str, float] = {}
+    for name, leg in (("C", run_shift_kernels), ("A", run_snippets), ("A-cf", run_cf_snippets), ("B", run_pipeline)):
+        t1 = time.time()
+        leg(ctx)
+        secs[name] = round(time.time() - t1, 1)
+    ctx.extra["leg_seconds"] = secs
     t = ctx.budget_s
-    run_snippets(ctx)
-    run_cf_snippets(ctx)
-    run_pipeline(ctx)
     ctx.extra["legs"] = {"A": "canonicalization snippets", "B": "pipeline programs, stage-wise", "C": "fold kernels rv32/rv64/riscv_cf/pattern guards: oracle + translated definitions (driver_gen)",
                          "B-tv": "proved validator on every emitted loop-free function"}
     ctx.extra["budget_s"] = t
@@ -1069,17 +1241,22 @@ def replay(ctx: core.Ctx, body: dict) -> int:
         print("property FAILS on this case: " + sig if sig else "property holds on this case")
         return 1 if sig else 0
     if leg == "B":
-        p = {"text": case["program"], "arg_types": case["arg_types"], "ret_types": case["ret_types"]}
+        p = {"text": case["program"], "arg_types": case["arg_types"], "ret_types": case["ret_types"], "pin_p": case.get("pin_p", 0.4)}
+        if "fspec" in case:
+            p["fspec"] = case["fspec"]
         print(p["text"])
         m = proggen.parse_module(p["text"])
-        res = compile_and_run(p, [case["args"]], [case["entry_regs"]], case.get("pin_seed"), ctx)
-        o = ctx.model("sem", ["prog " + miniir.serialize(m), "run 200000 main " + " ".join(miniir.arg_text(t, v) for t, v in zip(case["arg_types"], case["args"]))])[1]
+        res = compile_and_run(p, [case["args"]], [case["entry_regs"]], case.get("pin_seed"), ctx, ("C", "P", "Q", "E"))
+        o = ctx.model("sem", ["prog " + miniir.serialize(m), "run 200000 main " + " ".join(sem_arg(t, v) for t, v in zip(case["arg_types"], case["args"]))])[1]
         print("source semantics:", o)
         if res["nocompile"]:
             print("does not compile:", res["nocompile"])
         for s, obs, txt in res["stages"]:
             print(f"--- {s}: {obs[0][:2]}")
         want = pp.want_from_sem(o, p["ret_types"])
+        if want is not None and "fspec" in p:
+            want = {"admissible": pp.float_admissible(p, case["args"])}
+            print("results the source's fast-math flags admit:", want["admissible"])
         src = tv.src_of(m)
         body = tv.body_of(res["prog"]) if res["prog"] is not None else None
         if src is not None and body is not None:
